@@ -46,6 +46,12 @@ TA = 'track::TrackAttributes'
 UPDATE_HISTORY = {k: v + '::update_history' for k, v in ATTRS.items()}
 
 
+def result_path(t):
+    """body holding the per-candidate decision (merge / new track / record): the loop body of t['loop'], or the
+    closure found by anchors.resolve_all when the stage is written as map().collect()"""
+    return t.get('result') or t['loop']
+
+
 def ta_method(kind, name):
     return '<%s as %s>::%s' % (ATTRS[kind], TA, name)
 
@@ -560,6 +566,30 @@ def rule_observers(ctx, R, parts=('wasted', 'skip', 'idle', 'clear')):
                             good = False
                     detail = 'filter_map drops exactly Ok(Wasted): %s' % (good and seen_none)
                     ok = ok or (good and seen_none)
+        if not ok:
+            # loop form: `for (id, status) in lookup(..) { if <expired> { continue } ...; result.push(record) }`
+            from lib import loop_element_paths
+            pushes = [c for c in b.find_calls('std::vec::Vec::push')]
+            for h, blks in b.loops().items():
+                ps = [c.bb for c in pushes if c.bb in blks]
+                if not ps:
+                    continue
+                paths = loop_element_paths(b, h, ps)
+                if not paths:
+                    continue
+                good = True
+                dropped = False
+                for conds, hit in paths:
+                    wasted = any(k.kind == 'discr' and k.variants == {'Wasted'} for k in conds) and any(
+                        k.kind == 'discr' and k.variants == {'Ok'} for k in conds)
+                    if hit and wasted:
+                        good = False
+                    if not hit:
+                        dropped = True
+                        if not wasted:
+                            good = False
+                detail = 'loop keeps exactly the tracks whose status is not Ok(Wasted): %s' % (good and dropped)
+                ok = ok or (good and dropped)
         ctx.check(ok, R, b, tname + ':idle-excludes-expired', detail[:200],
                   'idle_tracks_with_scene lists every track matched by the idle lookup without excluding those whose '
                   'status is Ok(Wasted) (%s): an expired track that was not collected yet is reported as idle, so the '
